@@ -1,7 +1,7 @@
 (* Model/GenUniverse.v — the concrete instance of the generator-cache model: generators with declared
    parameter fields, calls keyed by (generator identity, validated parameter values), generator bodies
    given by a finite table (default: a body that builds one anonymous module and calls nothing). *)
-Require Import Hdl21.Base.PyInt Hdl21.Model.ParamName Hdl21.Model.GenCache.
+Require Import Hdl21.Base.PyInt Hdl21.Model.ParamName Hdl21.Model.GenCache Hdl21.Model.C09GenFail.
 From Coq Require Import String Ascii.
 Open Scope string_scope.
 Open Scope Z_scope.
@@ -48,7 +48,8 @@ Definition gen_of (U : list gen) (k : key) : gen :=
   nth (fst k) U {| g_name := ""; g_fields := [] |}.
 Definition gen_name_of (U : list gen) (k : key) : string := g_name (gen_of U k).
 Definition has_params_of (U : list gen) (k : key) : bool := negb (Nat.eqb (List.length (g_fields (gen_of U k))) 0).
-Definition uname_of (U : list gen) (k : key) : result uname := unique_name (g_fields (gen_of U k)) (snd k).
+(* _unique_name(call.params): an Error is a parameter set that cannot be named (an object without a JSON form in it) *)
+Definition uname_of (U : list gen) (k : key) : result uname := unique_name_f (g_fields (gen_of U k)) (snd k).
 (* evaluation-only rendering of the suffix: the digest is not computed in Coq *)
 Definition suffix_of (U : list gen) (k : key) : string :=
   match uname_of U k with Ok (Readable s) => s | _ => "#" end.
@@ -57,18 +58,27 @@ Definition FUEL : nat := 40%nat.
 
 Definition run_c (U : list gen) (T : list entry) := run key_eqb (prog_of U T) (gen_name_of U) (has_params_of U) (suffix_of U) FUEL.
 
-(* model of one history: stops at the first rejected call (the state after an exception is not modelled) *)
-Fixpoint model_hist (U : list gen) (T : list entry) (st : state key) (cs : list rawcall)
+(* the suffix as the failing-call model wants it: None = _unique_name raises *)
+Definition suffix_opt_of (U : list gen) (k : key) : option string :=
+  match uname_of U k with Ok (Readable s) => Some s | Ok Hashed => Some "#" | Error _ => None end.
+
+(* Model/C09GenFail.v on the concrete universe: a call that raises leaves a state, the history goes on *)
+Definition run_cf (pol : store_policy) (U : list gen) (T : list entry) :=
+  run_f key_eqb (prog_of U T) (gen_name_of U) (has_params_of U) (suffix_opt_of U) pol FUEL.
+
+(* model of one history: every call of it, whatever the calls before did.  None = the call is refused (its arguments do
+   not validate, a circular dependency, its result cannot be named, a nested call was refused) *)
+Fixpoint model_hist_p (pol : store_policy) (U : list gen) (T : list entry) (st : state key) (cs : list rawcall)
   : state key * list (option (key * nat)) :=
   match cs with
   | [] => (st, [])
   | c :: cs' =>
       match mk_key U c with
-      | Error _ => (st, [None])
-      | Ok k => match run_c U T st k with
-                | Error _ => (st, [None])
-                | Ok (st', m) => let r := model_hist U T st' cs' in (fst r, Some (k, m) :: snd r)
+      | Error _ => let r := model_hist_p pol U T st cs' in (fst r, None :: snd r)
+      | Ok k => match run_cf pol U T st k with
+                | (st', Raise _) => let r := model_hist_p pol U T st' cs' in (fst r, None :: snd r)
+                | (st', Ret m) => let r := model_hist_p pol U T st' cs' in (fst r, Some (k, m) :: snd r)
                 end
       end
   end.
-
+Definition model_hist := model_hist_p StoreNamed.
